@@ -178,11 +178,21 @@ def _big_history(path, engine, n, seed):
     if d:
         return "round trip of a %dx%d dataset: %s" % (n, n, d)
     second = first + 1.0
+    fpath = path if os.path.exists(path) else path + EXT[engine]
+    st1 = os.stat(fpath)
     with quiet():
         xyzpy.save_ds(second, path, engine=engine)
     d = refmodel.ds_equiv(first, loaded, check_attrs=False)
     if d:
         return "the dataset loaded first changed when other data was saved under the same name afterwards: %s" % d
+    # the new file has the size of the old one; give it its time stamp too (a copy with preserved times, a coarse-grained
+    # file system): what is loaded now is what is in the file now
+    os.utime(fpath, ns=(st1.st_atime_ns, st1.st_mtime_ns))
+    with quiet():
+        now = xyzpy.load_ds(path, engine=engine)
+    d = refmodel.ds_equiv(second, now, check_attrs=False)
+    if d:
+        return "after other data of the same shape was saved under the same name (the file keeping its size and time stamp), load_ds gives the OLD data: %s" % d
     with quiet():
         again = xyzpy.load_ds(path, engine=engine)
         again["u"].values[0, 0] = 42.0
